@@ -85,11 +85,18 @@ GuardsCtor2(e) ==
                (j \in Ids /\ cs.inst[j].life = "scoped") => cs.inst[j].owner = e.scope),
      CG("constructed_in_live_scope", {"C13"}, TRUE)}
 
+\* an instance value registered as a singleton (not created by the container)
+ApplyInst2(e) ==
+    [cs EXCEPT !.inst = (e.id :> [reg |-> e.reg, outs |-> {1}, owner |-> "prov", life |-> "singleton", disp |-> DispOf(cs.cfg, e.reg, 1),
+                                  value |-> TRUE, th |-> "main", born |-> l, ready |-> l, returned |-> FALSE, closed |-> 0,
+                                  discarded |-> FALSE, failed |-> FALSE, deps |-> {}]) @@ @]
+
 ApplyCtor2(e) ==
     LET r == Reg(cs.cfg, e.reg)
         owner == IF r.life = "singleton" THEN "prov" ELSE e.scope
         newIds == IF e.outcome = "ok" THEN Range(e.outs) ELSE {}
         recs == [i \in newIds |-> [reg |-> e.reg, outs |-> {x \in DOMAIN e.outs : e.outs[x] = i}, owner |-> owner, life |-> r.life,
+                                   disp |-> DispOf(cs.cfg, e.reg, CHOOSE x \in DOMAIN e.outs : e.outs[x] = i), value |-> FALSE,
                                    th |-> e.th, born |-> l, ready |-> 0, returned |-> FALSE, closed |-> 0, discarded |-> FALSE, failed |-> FALSE,
                                    deps |-> UNION {Range(e.args[j].ids) : j \in DOMAIN e.args}]]
     IN [cs EXCEPT !.inst = recs @@ @]
@@ -105,15 +112,15 @@ GuardsClose2(e) ==
         discard == IsDiscard(e)
         closing == IF me.owner = "prov" THEN cs.pclosing > 0 \/ cs.phase = "building" ELSE IsClosing(me.owner) \/ ~(me.owner \in SNames)
         since == IF me.owner = "prov" THEN cs.pclosing ELSE IF me.owner \in SNames /\ IsClosing(me.owner) THEN ClosingSince(me.owner) ELSE 0
-        settledBefore(j) == cs.inst[j].ready > 0 /\ cs.inst[j].ready < since
+        settledBefore(j) == cs.inst[j].ready > 0 /\ cs.inst[j].ready < since /\ cs.inst[j].disp /\ ~cs.inst[j].value
     IN
     {CG("closed_at_most_once", {"C10", "C12", "C09"}, me.closed = 0),
      CG("not_closed_while_owner_open", {"C10", "C09"}, closing),
      \* under concurrency "creation order" is only defined through dependencies: whoever received this instance as
      \* a constructor argument (and lives in the same owner) is closed before it
      CG("dependents_closed_first", {"C11"}, ~discard =>
-          \A j \in Ids : (cs.inst[j].owner = me.owner /\ e.inst \in cs.inst[j].deps /\ ~cs.inst[j].discarded /\ cs.inst[j].ready > 0)
-                            => cs.inst[j].closed > 0),
+          \A j \in Ids : (cs.inst[j].owner = me.owner /\ e.inst \in cs.inst[j].deps /\ ~cs.inst[j].discarded /\ cs.inst[j].ready > 0
+                             /\ cs.inst[j].disp /\ ~me.value) => cs.inst[j].closed > 0),
      CG("descendants_before_parent", {"C11"}, (~discard /\ me.owner \in SNames /\ since > 0) =>
           \A j \in Ids : (cs.inst[j].owner \in (Sub(me.owner) \ {me.owner}) /\ settledBefore(j)) => cs.inst[j].closed >= 1),
      CG("scopes_before_singletons", {"C11"}, (me.owner = "prov" /\ since > 0) =>
@@ -157,7 +164,7 @@ GuardsRet2(e) ==
                  CG("singleton_same_instance", {"C01", "C09"}, (okval /\ life = "singleton") => cs.inst[v].owner = "prov"),
                  CG("scoped_same_instance", {"C02", "C09"}, (okval /\ life = "scoped") =>
                        /\ cs.inst[v].owner = tgt
-                       /\ (<<tgt, p[1]>> \in DOMAIN cs.firsts => cs.firsts[<<tgt, p[1]>>] = v)),
+                       /\ (<<tgt, p[1], p[2]>> \in DOMAIN cs.firsts => cs.firsts[<<tgt, p[1], p[2]>>] = v)),
                  CG("transient_fresh", {"C03", "C09"}, (okval /\ life = "transient") =>
                        (cs.inst[v].owner = tgt /\ v \notin cs.handed))}
               ELSE {})
@@ -191,7 +198,8 @@ ApplyRet2(e) ==
     ELSE IF c.op = "resolve" /\ err = {} /\ val # {} THEN
         LET v == e.res.ids[1]
             life == cs.inst[v].life
-        IN [base EXCEPT !.firsts = IF life = "scoped" /\ <<tgt, cs.inst[v].reg>> \notin DOMAIN @ THEN (<<tgt, cs.inst[v].reg>> :> v) @@ @ ELSE @,
+            fk == <<tgt, cs.inst[v].reg, IF HasProvider(cs.cfg, c.t, c.k) THEN ProviderOf(cs.cfg, c.t, c.k)[2] ELSE 0>>
+        IN [base EXCEPT !.firsts = IF life = "scoped" /\ fk \notin DOMAIN @ THEN (fk :> v) @@ @ ELSE @,
                         !.handed = IF life = "transient" THEN @ \cup {v} ELSE @]
     ELSE IF c.op = "close" /\ c.sc \in SNames THEN
         [base EXCEPT !.reports = IF "disposal" \in err THEN @ \cup {[th |-> e.th, line |-> l]} ELSE @,
@@ -202,7 +210,8 @@ ApplyRet2(e) ==
 
 \* ---- end of scenario ------------------------------------------------------------------------
 GuardsObs2(e) ==
-    {CG("all_closed_exactly_once", {"C10", "C09"}, cs.pclosed => \A i \in Ids : cs.inst[i].closed = 1),
+    {CG("all_closed_exactly_once", {"C10", "C09"}, cs.pclosed => \A i \in Ids :
+          IF cs.inst[i].disp /\ ~cs.inst[i].value THEN cs.inst[i].closed = 1 ELSE cs.inst[i].closed <= 1),
      CG("no_goroutine_left", {"C14", "C09"}, cs.pclosed => e.goroutines <= 0),
      CG("closed_scopes_unreachable", {"C14"}, cs.pclosed => e.alive_scopes = <<>>),
      CG("instances_unreachable", {"C14"}, cs.pclosed => e.alive_insts = <<>>),
@@ -222,6 +231,7 @@ Apply2(e) ==
     ELSE IF e.ev = "adderr" THEN [cs EXCEPT !.skip = TRUE]
     ELSE IF e.ev = "call" THEN ApplyCall2(e)
     ELSE IF e.ev = "ctor" THEN ApplyCtor2(e)
+    ELSE IF e.ev = "inst" THEN ApplyInst2(e)
     ELSE IF e.ev = "close" THEN ApplyClose2(e)
     ELSE IF e.ev = "ret" /\ e.th \in DOMAIN cs.curs THEN ApplyRet2(e)
     ELSE IF e.ev = "waits" THEN [cs EXCEPT !.waited = @ \cup {[th |-> e.th, scope |-> e.scope, line |-> l]}]
